@@ -632,3 +632,59 @@ def positions_count_newlines_like_the_lexer(ctx, rep, rule):
 
 _add("C02", positions_count_newlines_like_the_lexer, "C02.14")
 _add("C16", positions_count_newlines_like_the_lexer, "C16.36")
+
+
+# ---------------------------------------------------------------- C03: a cache keyed without the order must not hold what depends on the order
+
+def order_free_cache_of_ordered_value(ctx, rep, rule):
+    """In the emulator a gate's qubit operands are an ORDERED list (bit j of the matrix index belongs to the j-th
+    operand).  A table filled by iterating that list, cached under a key that forgets the order (a bitmask built
+    with |=, a set, a sorted tuple), hands the first order's table to a later gate on the same qubits in another
+    order."""
+    ix = ctx.ix
+    n = 0
+    rep.rule(rule, "no cache of the emulator that is keyed order-insensitively on the qubit operands (bitmask, set, sorted) stores a value computed by iterating the operands in order", floor=0)
+    for f in ix.functions.values():
+        if f.module != "jaqalpaq.emulator.unitary" or isinstance(f.node, ast.Lambda):
+            continue
+        caches = {t.id for a in ast.walk(f.node) if isinstance(a, ast.Assign) and (isinstance(a.value, ast.Dict) and not a.value.keys or (isinstance(a.value, ast.Call) and isinstance(a.value.func, ast.Name) and a.value.func.id == "dict" and not a.value.args)) for t in a.targets if isinstance(t, ast.Name)}
+        for st in ast.walk(f.node):
+            if not (isinstance(st, ast.Assign) and len(st.targets) == 1 and isinstance(st.targets[0], ast.Subscript) and isinstance(st.targets[0].value, ast.Name) and st.targets[0].value.id in caches and isinstance(st.targets[0].slice, ast.Name)):
+                continue
+            n += 1
+            cache, key = st.targets[0].value.id, st.targets[0].slice.id
+            cons = construct_of(f, f"cache:{cache}")
+            # how is the key built?
+            ordered_lists = set()
+            order_free = False
+            for lp in ast.walk(f.node):
+                if isinstance(lp, ast.For) and isinstance(lp.iter, ast.Name):
+                    for a in ast.walk(lp):
+                        if isinstance(a, ast.AugAssign) and isinstance(a.target, ast.Name) and a.target.id == key and isinstance(a.op, (ast.BitOr, ast.Add, ast.BitXor)):
+                            order_free = True
+                            ordered_lists.add(lp.iter.id)
+            for a in ast.walk(f.node):
+                if isinstance(a, ast.Assign) and any(isinstance(t, ast.Name) and t.id == key for t in a.targets) and isinstance(a.value, ast.Call) and isinstance(a.value.func, ast.Name) and a.value.func.id in ("frozenset", "set", "sorted") and a.value.args and isinstance(a.value.args[0], ast.Name):
+                    order_free = True
+                    ordered_lists.add(a.value.args[0].id)
+            if not order_free:
+                rep.ok(rule, cons, f"the key `{key}` is not recognised as order-insensitive", f"{f.path}:{st.lineno}")
+                continue
+            # is the stored value filled by iterating the same list in order?
+            val = st.value.id if isinstance(st.value, ast.Name) else None
+            fills = False
+            if val is not None:
+                for lp in ast.walk(f.node):
+                    if isinstance(lp, ast.For) and isinstance(lp.iter, ast.Name) and lp.iter.id in ordered_lists:
+                        # the loop sits inside a statement that also mentions the cached value
+                        for outer in ast.walk(f.node):
+                            if isinstance(outer, (ast.For, ast.Try, ast.If)) and outer is not lp and any(x is lp for x in ast.walk(outer)) and any(isinstance(x, ast.Name) and x.id == val for x in ast.walk(outer)) and not any(isinstance(x, ast.AugAssign) and isinstance(x.target, ast.Name) and x.target.id == key for x in ast.walk(lp)):
+                                fills = True
+            if fills:
+                rep.violation(rule, cons, f"`{ast.unparse(st)}`: the key `{key}` is built from {sorted(ordered_lists)} without its order, the stored `{val}` by iterating it in order: `CRx q[1] q[2] 1.1; CRx q[2] q[1] 0.4` in one subcircuit applies the second gate with the first one's column table (bit j of the matrix index no longer belongs to the j-th operand)", f"{f.path}:{st.lineno}", witness="CRx q[1] q[2] 1.1; CRx q[2] q[1] 0.4")
+            else:
+                rep.undecided(rule, cons, "order-insensitive key, but what is stored is not recognised", f"{f.path}:{st.lineno}")
+    rep.ok(rule, "emulator.unitary:caches", f"{n} cache stores examined")
+
+
+_add("C03", order_free_cache_of_ordered_value, "C03.16")
